@@ -207,6 +207,25 @@ impl Property for C19 {
                             }
                         },
                     }
+                    // re-owning applies to the results of operations too: the postfix of the owned
+                    // glob, and the owned / cloned postfix, are the same pattern
+                    let second: Vec<(&str, Option<Glob<'_>>)> = vec![
+                        ("into_owned.partition", g0.clone().into_owned().partition().1),
+                        ("partition.into_owned", Some(post.clone().into_owned())),
+                        ("partition.clone", Some(post.clone())),
+                        ("partition.partition", post.clone().partition().1),
+                    ];
+                    for (label, g) in second {
+                        match g {
+                            None => return Err(format!("`{}`: route {} has no postfix although partition gives `{}`", text, label, shown)),
+                            Some(g) => {
+                                let o = observe_glob(&g, &case.paths);
+                                if o != op {
+                                    return Err(format!("`{}`: route {} behaves differently from the partition postfix `{}`: {}", text, label, shown, first_diff(&op, &o)));
+                                }
+                            },
+                        }
+                    }
                     POSTFIX_SUBJECTS.with(|c| c.set(c.get() + 1));
                 }
             }
